@@ -72,6 +72,8 @@ NewFlags ==
     \* (debits of one transaction recorded under their input indexes, owners mixed)
     \cup (IF \E b \in GoneBlocks(wchain, wchain') : \E t \in Range(content[b]) : Cardinality(TxIns[t]) >= 2
           THEN {"rb-multi"} ELSE {})
+    \* "rm-crash": the process dies while a removal is queued, running or between its commits
+    \cup (IF up /\ ~up' /\ \E x \in Wallets : status[x] = "removing" THEN {"rm-crash"} ELSE {})
 
 \* the wallet state after a block step is a block boundary whether or not more tips are queued:
 \* what a query that answers "as of this boundary" must report (C17)
